@@ -35,12 +35,14 @@ MANIFEST = {
             "list — any case, OWS, empty elements, several fields — is dropped; request side only for ids handled by the default: "
             "branch) hold for the model of copyOneHeaderFromClientsideRequestToUpstreamRequest / httpBuildRequestHeader / "
             "removeHopByHopEntries / buildReplyHeader / strListGetItem; counterexamples are proved for Connection-nominated "
-            "Authorization, If-Modified-Since, Range …, for a VT/FF-only list element and for an unbalanced double quote. The model is "
+            "Authorization, If-Modified-Since, Range …, for an unbalanced double quote and for Proxy-Authenticate in a 1xx message (a VT/FF-only "
+            "list element used to end the list scan: repaired in /repo 43aac5c, kept as a regression theorem and corpus case). The model is "
             "tied to the rebuilt binary by scenario correspondence (exact field lists seen by the origin and by the client) and to the "
             "real list scanner and HttpHeader methods in-process under ASan/UBSan; a direct oracle judges every observation",
     "note": "trusted: Lean kernel, hand transcription, translator (switch groups, registry), python rig; not modelled: socket I/O, header "
             "parsing (tied separately), header mangling ACLs, adaptation, 1xx control messages, CONNECT/upgrade tunnels; known findings "
-            "C04-own-case-ignores-connection, C04-list-scan-stops-at-vt-ff, C04-dquote-swallows-list",
+            "C04-own-case-ignores-connection, C04-dquote-swallows-list, C04-1xx-proxy-authenticate-relayed "
+            "(C04-list-scan-stops-at-vt-ff fixed by /repo 43aac5c)",
     "technique": "Lean 4 proof (induction over the list scanner and the header loop) + switch/registry translator + e2e scenario "
                  "correspondence + ASan differential run + direct oracle",
 }
@@ -287,10 +289,6 @@ def cause_of_miss(fields, lname):
     vals = connection_values(fields)
     if any(b'"' in v for v in vals):
         return "dquote"
-    for v in vals:
-        for e in rfc_elements(v):
-            if e and all(c in b" \t\r\n\v\f" for c in e) and any(c in b"\v\f" for c in e):
-                return "vtff"
     return None
 
 
@@ -518,17 +516,17 @@ def classify(l, impl, why):
                 return None
             causes.add(c)
         # every complaint is explained by a known cause; a case that mixes causes is filed under the first one
-        return {"owncase": "C04-own-case-ignores-connection", "vtff": "C04-list-scan-stops-at-vt-ff", "dquote": "C04-dquote-swallows-list",
+        return {"owncase": "C04-own-case-ignores-connection", "dquote": "C04-dquote-swallows-list",
                 "1xxpa": "C04-1xx-proxy-authenticate-relayed"}[sorted(causes)[0]]
     if k == "L":
         lst = unhx(l.split(" ")[1])
         c = cause_of_miss([(b"Connection", lst)], None)
-        return {"vtff": "C04-list-scan-stops-at-vt-ff", "dquote": "C04-dquote-swallows-list"}.get(c)
+        return {"dquote": "C04-dquote-swallows-list"}.get(c)
     if k in ("R", "K"):
         if "hop-by-hop field" in (why or ""):
             return None
         c = cause_of_miss(parse_fields(l.split(" ")[1]), None)
-        return {"vtff": "C04-list-scan-stops-at-vt-ff", "dquote": "C04-dquote-swallows-list"}.get(c)
+        return {"dquote": "C04-dquote-swallows-list"}.get(c)
     return None
 
 
@@ -804,10 +802,10 @@ def cases(rng, tier):
     if thorough:
         yield from exhaustive_lists(5)
     else:
-        # quick: the full alphabet to length 3, and to length 4 without the two symbols (VT, double quote) whose lists mostly
-        # re-confirm the known findings (their witnesses are in the corpus; every failing case costs a minimisation)
+        # quick: the full alphabet to length 3, and to length 4 without the double quote, whose lists mostly re-confirm the
+        # known finding C04-dquote-swallows-list (witnesses are in the corpus)
         yield from exhaustive_lists(3)
-        yield from (l for l in exhaustive_lists(4, [c for c in LIST_ALPHA if c not in (b"\v", b"\"")]) if len(l.split(" ")[1]) == 8)
+        yield from (l for l in exhaustive_lists(4, [c for c in LIST_ALPHA if c != b"\""]) if len(l.split(" ")[1]) == 8)
     if thorough:
         yield from sweep_cases(rng.fork("sweep"))
     else:
